@@ -606,6 +606,209 @@ Proof.
   rewrite rsplit1_payload in Hr by (now apply Hok). inversion Hr. auto.
 Qed.
 
+(* ================================================================ C'. several cookies in one parse_cookie call *)
+From Coq Require Import Permutation.
+
+Section ListParse.
+  Variable btxt : term -> pystr.
+  Variable declen : pystr -> option nat.
+  Variable h : handler.
+  Notation parse_turn := (parse_turn btxt declen).
+  Notation parse_loop := (parse_loop btxt declen).
+  Notation parse_cookies := (parse_cookies btxt declen).
+
+  (* the single-cookie parse is one turn of the loop *)
+  Lemma parse_cookie_one w :
+    parse_cookie btxt h w = (x <- parse_one btxt h w ;; match x with Some e => Ok e | None => rejected end).
+  Proof.
+    unfold parse_cookie, parse_one.
+    destruct (ver_dec btxt h (regroup h (wsplit w))) as [[[pl t]|]|e|]; cbn [bind]; try reflexivity.
+    destruct (rsplit1 colon pl) as [[v typ]|]; reflexivity.
+  Qed.
+
+  Lemma parse_one_some w e : parse_one btxt h w = Ok (Some e) <-> parse_cookie btxt h w = Ok e.
+  Proof.
+    rewrite parse_cookie_one. destruct (parse_one btxt h w) as [[x|]|x|]; cbn [bind]; unfold rejected;
+      split; intro H; try discriminate H; congruence.
+  Qed.
+  Lemma parse_one_none w : parse_one btxt h w = Ok None -> forall e, parse_cookie btxt h w <> Ok e.
+  Proof. intros H e. rewrite parse_cookie_one, H. cbn. unfold rejected. discriminate. Qed.
+
+  (* what ONE cookie contributes to the result list: its own single-cookie parse if it has the requested name
+     and is accepted alone; nothing otherwise.  No reference to the other cookies of the call. *)
+  Definition contribution (name : pystr) (c : cookie) : list content :=
+    if name_is name c then match parse_cookie btxt h (snd c) with Ok e => [e] | _ => [] end else [].
+
+  (* the refinement of the refusal kind changes no acceptance *)
+  Lemma parse_turn_ok w x : parse_turn h w = Ok x -> parse_one btxt h w = Ok x.
+  Proof.
+    unfold Cookie.parse_turn. destruct (parse_one btxt h w) as [[e|]|e|]; try (intro H; exact H).
+    destruct (hard_fail btxt declen h w); [discriminate|intro H; exact H].
+  Qed.
+  Lemma parse_turn_some w e : parse_one btxt h w = Ok (Some e) -> parse_turn h w = Ok (Some e).
+  Proof. unfold Cookie.parse_turn. now intros ->. Qed.
+
+  Lemma contribution_one name c x :
+    name_is name c = true -> parse_turn h (snd c) = Ok x ->
+    contribution name c = match x with Some e => [e] | None => [] end.
+  Proof.
+    intros Hn Hx. apply parse_turn_ok in Hx. unfold contribution. rewrite Hn, parse_cookie_one, Hx. destruct x; reflexivity.
+  Qed.
+
+  Lemma parse_loop_spec name cs out :
+    parse_loop h name cs = Ok out -> out = flat_map (contribution name) cs.
+  Proof.
+    revert out; induction cs as [|c r IH]; intros out H; cbn [parse_loop] in H.
+    - now inversion H.
+    - cbn [flat_map]. destruct (name_is name c) eqn:En.
+      + destruct (parse_turn h (snd c)) as [x|e|] eqn:Ex; cbn [bind] in H; try discriminate H.
+        destruct (parse_loop h name r) as [rest|e|]; cbn [bind] in H; try discriminate H.
+        inversion H; subst out. rewrite (contribution_one name c x En Ex), (IH rest eq_refl).
+        destruct x; reflexivity.
+      + unfold contribution at 1. rewrite En. cbn [app]. now apply IH.
+  Qed.
+
+  (* the call succeeds iff no cookie of the requested name raises when parsed alone *)
+  Lemma parse_loop_ok_iff name cs :
+    (exists out, parse_loop h name cs = Ok out) <->
+    (forall c, In c cs -> name_is name c = true -> exists x, parse_turn h (snd c) = Ok x).
+  Proof.
+    induction cs as [|c r IH]; cbn [parse_loop].
+    - split; [intros _ c []|intros _; eauto].
+    - destruct (name_is name c) eqn:En.
+      + split.
+        * intros [out H]. destruct (parse_turn h (snd c)) as [x|e|] eqn:Ex; cbn [bind] in H; try discriminate H.
+          destruct (parse_loop h name r) as [rest|e|] eqn:Er; cbn [bind] in H; try discriminate H.
+          intros c' [<-|Hin] Hn; [eauto|]. apply IH; eauto.
+        * intro Hall. destruct (Hall c (or_introl eq_refl) En) as [x ->]. cbn [bind].
+          destruct (proj2 IH) as [rest ->]; [intros c' Hin; apply Hall; now right|]. cbn [bind]. eauto.
+      + rewrite IH. split; intros Hall c' Hin; [destruct Hin as [<-|Hin]; [congruence|now apply Hall]|apply Hall; now right].
+  Qed.
+
+  Lemma parse_loop_err name cs e :
+    parse_loop h name cs = Err e ->
+    exists c, In c cs /\ name_is name c = true /\ parse_turn h (snd c) = Err e.
+  Proof.
+    induction cs as [|c r IH]; cbn [parse_loop]; [discriminate|].
+    destruct (name_is name c) eqn:En.
+    - destruct (parse_turn h (snd c)) as [x|e'|] eqn:Ex; cbn [bind]; try discriminate.
+      + destruct (parse_loop h name r) as [rest|e'|] eqn:Er; cbn [bind]; try discriminate.
+        intro H; inversion H; subst e'. destruct (IH eq_refl) as (c' & Hin & Hn & Hp). exists c'. auto with datatypes.
+      + intro H; inversion H; subst e'. exists c. auto with datatypes.
+    - intro H. destruct (IH H) as (c' & Hin & Hn & Hp). exists c'. auto with datatypes.
+  Qed.
+
+  Lemma parse_cookies_inv name cs out :
+    parse_cookies h name cs = Ok (Some out) -> parse_loop h name cs = Ok out.
+  Proof.
+    unfold parse_cookies. destruct cs as [|c r]; [discriminate|].
+    destruct (parse_loop h name (c :: r)) as [l|e|]; cbn [bind]; try discriminate. intro H; now inversion H.
+  Qed.
+
+  (* each returned entry is the content of the cookie at its position, accepted on its own; a cookie that is
+     not accepted on its own contributes nothing, wherever it stands and whatever stands before it *)
+  Lemma list_compositional name cs out :
+    parse_cookies h name cs = Ok (Some out) -> out = flat_map (contribution name) cs.
+  Proof. intro H. now apply parse_loop_spec, parse_cookies_inv. Qed.
+
+  Lemma list_total name cs :
+    cs <> [] ->
+    (forall c, In c cs -> name_is name c = true -> exists x, parse_turn h (snd c) = Ok x) ->
+    parse_cookies h name cs = Ok (Some (flat_map (contribution name) cs)).
+  Proof.
+    intros Hne Hall. apply parse_loop_ok_iff in Hall as [out Hout]. pose proof (parse_loop_spec _ _ _ Hout) as ->.
+    unfold parse_cookies. destruct cs; [congruence|]. now rewrite Hout.
+  Qed.
+
+  Lemma list_raises name cs e :
+    parse_cookies h name cs = Err e ->
+    exists c, In c cs /\ name_is name c = true /\ parse_turn h (snd c) = Err e.
+  Proof.
+    unfold parse_cookies. destruct cs as [|c r]; [discriminate|].
+    destruct (parse_loop h name (c :: r)) as [l|e'|] eqn:El; cbn [bind]; try discriminate.
+    intro H; inversion H; subst e'. now apply parse_loop_err.
+  Qed.
+
+  (* the order of the cookies only decides the order of the entries *)
+  Lemma list_order name cs cs' out :
+    Permutation cs cs' -> parse_cookies h name cs = Ok (Some out) ->
+    exists out', parse_cookies h name cs' = Ok (Some out') /\ Permutation out out'.
+  Proof.
+    intros Hp H. assert (Hne : cs <> []) by (intros ->; discriminate H).
+    pose proof (list_compositional _ _ _ H) as ->. apply parse_cookies_inv in H.
+    exists (flat_map (contribution name) cs'). split; [|now apply Permutation_flat_map].
+    apply list_total.
+    - intros ->. apply Permutation_sym, Permutation_nil in Hp. contradiction.
+    - intros c Hin. apply (proj1 (parse_loop_ok_iff name cs)); [eauto|].
+      eapply Permutation_in; [apply Permutation_sym; exact Hp|exact Hin].
+  Qed.
+
+  (* every entry satisfies whatever holds of all single-cookie acceptances *)
+  Lemma list_sound (P : content -> Prop) name cs out :
+    (forall c e, In c cs -> parse_cookie btxt h (snd c) = Ok e -> P e) ->
+    parse_cookies h name cs = Ok (Some out) -> Forall P out.
+  Proof.
+    intros HP H. pose proof (list_compositional _ _ _ H) as ->. apply Forall_forall. intros e He.
+    apply in_flat_map in He as (c & Hc & He). unfold contribution in He.
+    destruct (name_is name c); [|destruct He].
+    destruct (parse_cookie btxt h (snd c)) as [e'|x|] eqn:Ep; try destruct He as [<-|[]]; try destruct He. eauto.
+  Qed.
+
+  (* genuine cookies, each parsing back alone, all come back in order *)
+  Lemma list_roundtrip name (gs : list (wire * content)) :
+    gs <> [] -> (forall g, In g gs -> parse_cookie btxt h (fst g) = Ok (snd g)) ->
+    parse_cookies h name (List.map (fun g => (Some name, fst g)) gs) = Ok (Some (List.map snd gs)).
+  Proof.
+    intros Hne Hall.
+    replace (List.map snd gs) with (flat_map (contribution name) (List.map (fun g => (Some name, fst g)) gs)).
+    - apply list_total; [destruct gs; [congruence|discriminate]|].
+      intros c Hin _. apply in_map_iff in Hin as (g & <- & Hg). exists (Some (snd g)). apply parse_turn_some, parse_one_some. now apply Hall.
+    - clear Hne. induction gs as [|g r IH]; [reflexivity|]. cbn [List.map flat_map].
+      rewrite IH by (intros; apply Hall; now right). unfold contribution at 1, name_is. cbn [fst snd].
+      rewrite str_eqb_refl, (Hall g) by now left. reflexivity.
+  Qed.
+End ListParse.
+
+(* the content of an entry is that of a cookie the provider issued *)
+Definition genuine_entry (G : list genuine) (e : content) : Prop :=
+  exists g, In g G /\ rsplit1 colon (g_payload g) = Some (fst (fst e), snd (fst e)) /\ g_ts g = snd e.
+
+Section ListTamper.
+  Variable btxt : term -> pystr.
+  Variable declen : pystr -> option nat.
+  Variable G : list genuine.
+
+  Lemma list_tamper_signed ks name cs out :
+    let h := mk_handler (Some ks) None None in
+    (forall c, In c cs -> wire_derivable (knowledge h G) (snd c)) ->
+    parse_cookies btxt declen h name cs = Ok (Some out) -> Forall (genuine_entry G) out.
+  Proof.
+    intros h Hd. apply list_sound. intros c [[v typ] ts] Hc Hp. apply (tamper_signed btxt G ks (snd c)); auto.
+  Qed.
+  Lemma list_tamper_signed_encrypted ks ke name cs out :
+    let h := mk_handler (Some ks) (Some ke) None in
+    (forall c, In c cs -> wire_derivable (knowledge h G) (snd c)) ->
+    parse_cookies btxt declen h name cs = Ok (Some out) -> Forall (genuine_entry G) out.
+  Proof.
+    intros h Hd. apply list_sound. intros c [[v typ] ts] Hc Hp. apply (tamper_signed_encrypted btxt G ks ke (snd c)); auto.
+  Qed.
+  Lemma list_tamper_encrypted ke name cs out :
+    let h := mk_handler None (Some ke) None in
+    (forall c, In c cs -> wire_derivable (knowledge h G) (snd c)) ->
+    parse_cookies btxt declen h name cs = Ok (Some out) -> Forall (genuine_entry G) out.
+  Proof.
+    intros h Hd. apply list_sound. intros c [[v typ] ts] Hc Hp. apply (tamper_encrypted btxt G ke (snd c)); auto.
+  Qed.
+  Lemma list_tamper_encrypter kc name cs out :
+    (forall g, In g G -> last_is space (g_typ g) = false) ->
+    let h := mk_handler None None (Some kc) in
+    (forall c, In c cs -> wire_derivable (knowledge h G) (snd c)) ->
+    parse_cookies btxt declen h name cs = Ok (Some out) -> Forall (genuine_entry G) out.
+  Proof.
+    intros Hsp h Hd. apply list_sound. intros c [[v typ] ts] Hc Hp. apply (tamper_encrypter btxt G kc Hsp (snd c)); auto.
+  Qed.
+End ListTamper.
+
 (* ================================================================ D. the relying party's cookie helper *)
 Lemma client_roundtrip btxt k load ts :
   no_c bar load = true -> no_c bar ts = true ->
